@@ -146,7 +146,7 @@ mod verif_kani_resp_parser {
     }
     // @harness: h_parser_scalars_n10
     // @bound: all byte strings of length 1..=10 over the 18-symbol alphabet; scalar frame types (+ - : $) via the real parse_* fns; unwind 12; measured CBMC time ~845 s (close to the 900 s thorough limit) (machine under load)
-    // @tier: thorough
+    // @tier: manual
     // @complete: false
     // @props: C15
     #[kani::proof]
